@@ -1,6 +1,6 @@
 """C15 - Filtering commutes with analysis: filters remove packets, never change results.
 
-Structural clauses decided (DESIGN.md §5 C15):
+Structural clauses decided:
  R1 on each of the 7 per-packet paths the filter decision precedes every analysis step (no path to an analysis
     callee avoids both `raw_filter::apply` and the `no filter configured` edge)
  R2 a rejected packet is inert: between the `apply == false` edge and the next packet no analysis callee, cache
@@ -8,9 +8,11 @@ Structural clauses decided (DESIGN.md §5 C15):
  R3 fail-open: `apply` returns true when nothing can be extracted; otherwise exactly should_process(..)
  R4 an admitted packet continues on the same code as an unfiltered one
  R6 should_process receives (src_ip, dst_ip, src_port, dst_port) of the quick extractor in that order
- R9 the three raw_filter.rs copies agree per helper on the constants examined and the byte-order conversions applied
- R8 in parallel mode every worker is started with a clone of the same filter (nothing is moved out of the shared value)
  R7 the quick extractor reads the endpoints at the IPv4/IPv6/TCP header offsets (RFC 791 / 8200 / 793) in each copy
+ R8 in parallel mode every worker is started with a clone of the same filter and every process_packet call site in the
+    worker loop passes it
+ R9 the three raw_filter.rs copies agree per helper on the constants examined and the byte-order conversions applied; quick
+    extractor and full parser try the link-layer interpretations in the same order (Ethernet, raw IP, NULL)
 """
 from ..engine import cfg as C
 from ..engine import q as Q
